@@ -32,8 +32,10 @@ class Restart(BaseException):
 # ----------------------------------------------------------------------------------------------
 # pi handling: floats that are rational multiples of pi^(+-1) are kept symbolic
 # ----------------------------------------------------------------------------------------------
-PI = z3.Real('PI')
-PI_BOUNDS = [PI > z3.RealVal('3.14159265358979'), PI < z3.RealVal('3.14159265358980')]
+# In arithmetic contexts pi is the rational its float prints as (keeps `x*DEG2RAD`, `% (2*pi)`, range comparisons linear);
+# the trig layer works on exact rational multiples of pi through the linear angle forms, so cos(pi/2) is exactly 0.
+PI = z3.RealVal('3.141592653589793')
+PI_BOUNDS = []
 _PI_TABLE = {}
 
 
@@ -64,6 +66,15 @@ def pi_multiple(x):
         return None
     k, p = hit
     return (k if x > 0 else -k, p)
+
+
+def nice_fraction(x):
+    """the rational a float stands for: n/d with small d when the float is the nearest double to it (1/3, 2/3, ...),
+    otherwise the decimal it prints as"""
+    fr = F(x).limit_denominator(720)
+    if builtins.float(fr) == x:
+        return fr
+    return F(repr(x))
 
 
 def _is_num(x):
@@ -100,7 +111,7 @@ def lift(x):
         elif x == int(x) and abs(x) < 1e15:
             r = z3.RealVal(int(x))
         else:
-            r = z3.RealVal(str(F(repr(x))))
+            r = z3.RealVal(str(nice_fraction(x)))
         _lift_cache[key] = r
         return r
     raise SymnpUnsupported(f"cannot lift {type(x)} into a symbolic real")
@@ -131,7 +142,7 @@ class PiPoly:
             pm = pi_multiple(x)
             if pm is not None:
                 return PiPoly({pm[1]: pm[0]})
-            return PiPoly({0: F(repr(x))})
+            return PiPoly({0: nice_fraction(x)})
         return None
 
     def __add__(self, o):
@@ -605,11 +616,14 @@ class SR:
             if o == -1:
                 return -self
             c, fd = self._fac()
-            fo = F(repr(builtins.float(o))) if not isinstance(o, (int, _np.integer, F)) else F(int(o)) if not isinstance(o, F) else o
+            fo = nice_fraction(builtins.float(o)) if not isinstance(o, (int, _np.integer, F)) else F(int(o)) if not isinstance(o, F) else o
             pm = pi_multiple(builtins.float(o)) if isinstance(o, (builtins.float, _np.floating)) else None
             fac = (c * fo, fd) if pm is None else None
             return SR(self.t * lift(o), _lin_mul(self.lin, Lin.of(o)), fac, _fop(_np.multiply, self, o))
         if isinstance(o, SR):
+            if (self.lin is not None and self.lin.a and not (o.lin is not None and o.lin.is_const())) or \
+               (o.lin is not None and o.lin.a and not (self.lin is not None and self.lin.is_const())):
+                _angle_value_used(self, o)
             c1, f1 = self._fac()
             c2, f2 = o._fac()
             fd = dict(f1)
@@ -675,7 +689,7 @@ class SR:
         if isinstance(o, (builtins.float, _np.floating)) and pi_multiple(builtins.float(o)) is not None:
             return None
         c, fd = self._fac()
-        fo = F(repr(builtins.float(o))) if not isinstance(o, (int, _np.integer)) else F(int(o))
+        fo = nice_fraction(builtins.float(o)) if not isinstance(o, (int, _np.integer)) else F(int(o))
         return (c / fo, fd)
 
     def __rtruediv__(self, o):
@@ -687,7 +701,7 @@ class SR:
         _record_div(self.t, self.fv)
         rc, rf = self._recip()
         if _is_num(o) and not (isinstance(o, (builtins.float, _np.floating)) and pi_multiple(builtins.float(o))):
-            fo = F(repr(builtins.float(o))) if not isinstance(o, (int, _np.integer)) else F(int(o))
+            fo = nice_fraction(builtins.float(o)) if not isinstance(o, (int, _np.integer)) else F(int(o))
             fac = (rc * fo, rf)
         else:
             fac = None
@@ -722,6 +736,9 @@ class SR:
         raise SymnpUnsupported(f"power {o!r} of symbolic real")
 
     def __rpow__(self, o):
+        if _is_num(o) and abs(builtins.float(o) - math.e) < 1e-15:
+            from . import proxy
+            return proxy._exp1(self)
         raise SymnpUnsupported("symbolic exponent")
 
     def __mod__(self, o):
@@ -734,21 +751,25 @@ class SR:
     def __lt__(self, o):
         if _arr(o):
             return NotImplemented
+        _angle_compared(self, o)
         return SymBool(self.t < lift(o), _fop(_np.less, self, o))
 
     def __le__(self, o):
         if _arr(o):
             return NotImplemented
+        _angle_compared(self, o)
         return SymBool(self.t <= lift(o), _fop(_np.less_equal, self, o))
 
     def __gt__(self, o):
         if _arr(o):
             return NotImplemented
+        _angle_compared(self, o)
         return SymBool(self.t > lift(o), _fop(_np.greater, self, o))
 
     def __ge__(self, o):
         if _arr(o):
             return NotImplemented
+        _angle_compared(self, o)
         return SymBool(self.t >= lift(o), _fop(_np.greater_equal, self, o))
 
     def __eq__(self, o):
@@ -756,6 +777,7 @@ class SR:
             return NotImplemented
         if o is None or isinstance(o, str):
             return False
+        _angle_compared(self, o)
         return SymBool(self.t == lift(o), _fop(_np.equal, self, o))
 
     def __ne__(self, o):
@@ -763,6 +785,7 @@ class SR:
             return NotImplemented
         if o is None or isinstance(o, str):
             return True
+        _angle_compared(self, o)
         return SymBool(self.t != lift(o), _fop(_np.not_equal, self, o))
 
     def __hash__(self):
@@ -821,6 +844,29 @@ class SR:
         return self
 
 
+def _angle_value_used(*xs):
+    """the numeric value of an angle (not just its sine/cosine) enters the arithmetic: tie the value symbols of angles
+    with equal (cos, sin) together (injectivity of the inverse trigonometric functions on their principal ranges)"""
+    from . import trig
+    names = []
+    for x in xs:
+        if isinstance(x, SR) and x.lin is not None:
+            names += list(x.lin.a)
+    if names:
+        trig.need_value(names)
+
+
+def _angle_compared(*xs):
+    """an angle value is compared: make sure its atoms carry their sign/range links to their (cos, sin) pair"""
+    names = []
+    for x in xs:
+        if isinstance(x, SR) and x.lin is not None and x.lin.a:
+            names += list(x.lin.a)
+    if names:
+        from . import trig
+        trig.materialise(names)
+
+
 def _record_div(den, fv=None):
     mask_and(None if fv is None else fv != 0)
     den_s = z3.simplify(den)
@@ -859,6 +905,14 @@ def sym_sqrt(x):
     # even powers in factored form: sqrt(c^2 * X^2) etc. handled only through certified rewriting
     for cand in CTX.pool:
         ct = cand.t if isinstance(cand, SR) else lift(cand)
+        # numeric pre-filter on the shadow samples: a candidate that is not the root on some valid sample is skipped
+        cf = fv_of(cand)
+        if x.fv is not None and cf is not None and CTX.mask.any():
+            with _np.errstate(all='ignore'):
+                cfa = _np.broadcast_to(_np.asarray(cf, dtype=builtins.float), x.fv.shape)
+                okv = (_np.abs(cfa * cfa - x.fv) <= 1e-9 * (1 + _np.abs(x.fv))) & (cfa >= -1e-12)
+            if not bool(okv[CTX.mask].all()):
+                continue
         t0 = time.time()
         CTX.stats['rewrite_queries'] += 1
         cons = CTX.constraints()
@@ -920,9 +974,44 @@ def sym_mod(x, m):
     if not isinstance(x, SR) and not isinstance(m, SR):
         return builtins.float(x) % builtins.float(m)
     mt = lift(m)
-    k = CTX.newvar('modk', ('floor_div', lift(x), mt))
+    xt = lift(x)
+    mc = _const_of(z3.simplify(mt))
+    if mc is not None and mc > 0:
+        # the common cases k in {0, -1, 1} as (lazily simplified) case distinctions; an integer symbol only beyond them
+        fx = fv_of(x)
+        mf = builtins.float(mc)
+
+        def general():
+            return _mod_general(x, xt, mt, m)
+        c0 = z3.And(xt >= 0, xt < mt)
+        cm = z3.And(xt < 0, xt >= -mt)
+        cp = z3.And(xt >= mt, xt < 2 * mt)
+        f0 = None if fx is None else ((fx >= 0) & (fx < mf))
+        fm = None if fx is None else ((fx < 0) & (fx >= -mf))
+        fp = None if fx is None else ((fx >= mf) & (fx < 2 * mf))
+        d0 = _decided(c0, f0)
+        if d0 is True:
+            return x
+        dm = _decided(cm, fm)
+        if dm is True:
+            return x + m
+        dp = _decided(cp, fp)
+        if dp is True:
+            return x - m
+        if d0 is False and dm is False and dp is False:
+            return general()
+        inner = general() if not (d0 is None and dm is None and dp is False) else None
+        fv = _fop(_np.mod, x, m)
+        if inner is None:
+            return SR(z3.If(c0, xt, xt + mt), None, None, fv)
+        return SR(z3.If(c0, xt, z3.If(cm, xt + mt, z3.If(cp, xt - mt, lift(inner)))), None, None, fv)
+    return _mod_general(x, xt, mt, m)
+
+
+def _mod_general(x, xt, mt, m):
+    k = CTX.newvar('modk', ('floor_div', xt, mt))
     ki = z3.Int(f"modk_i!{CTX.fresh}")
-    r = lift(x) - mt * k
+    r = xt - mt * k
     CTX.defs += [k == z3.ToReal(ki), z3.If(mt > 0, z3.And(r >= 0, r < mt), z3.And(r <= 0, r > mt))]
     return SR(r, None, None, _fop(_np.mod, x, m))
 
@@ -972,7 +1061,15 @@ def lazy_if(cond, a, b, cfv=None):
     fv = None
     if cfv is not None:
         fv = _fop(lambda x, y: _np.where(cfv, x, y), a, b)
-    return SR(z3.If(cond, lift(a), lift(b)), None, None, fv)
+    lin = None
+    la, lb = Lin.of(a), Lin.of(b)
+    if la is not None and lb is not None and la.a and la.a.keys() == lb.a.keys() and \
+            all((la.a[k] - lb.a[k]).is_zero() for k in la.a):
+        dc = la.c - lb.c
+        kk = dc.pi_rational()
+        if kk is not None and kk % 2 == 0:
+            lin = la          # the two branches are the same angle modulo a full turn: trig functions cannot tell them apart
+    return SR(z3.If(cond, lift(a), lift(b)), lin, None, fv)
 
 
 def sym_clip(x, lo, hi):
